@@ -11,6 +11,7 @@ META = {
         "(2) every enumerator of DW_TAG_variable candidates (local_variables, local_variable, find_variables' non-TLS branch) returns a candidate only on the `true` outcome of valid_at(pc), and valid_at walks to the nearest enclosing lexical_block|subprogram and tests the pc against that DIE's ranges; "
         "(3) whenever a DWARF expression needs a machine register, the register file read from the thread is first rewound to the selected frame (restore_registers_at_frame(.., ecx.frame_num())) before the value is taken — both sites; "
         "(4) the location-list entry for a variable is selected with the pc of the exploration context and a half-open range test."
+        " Also: lookup by name keeps the last valid match of the breadth-first walk (innermost binding)."
     ),
     "not_decided": "the DWARF scope model vs the program's real scopes; shadowing resolution order for real programs; values (C06)",
     "assumptions": ["DW_TAG_lexical_block = 0x0b, DW_TAG_subprogram = 0x2e, DW_TAG_variable = 0x34"],
